@@ -184,3 +184,321 @@ Proof.
   replace (- c + zlen l) with (zlen l - c) by lia.
   apply zfirstn_all. rewrite zlen_skipn by lia. lia.
 Qed.
+
+(* ------------------------------------------------------------------ *)
+(* 4. the specification's read function                                *)
+(* ------------------------------------------------------------------ *)
+
+Lemma zrange_sget_fill (s : spec) (f a n : Z) :
+  (forall i, a <= i < a + n -> i < lo s \/ slen s <= i) ->
+  zrange (sget s f) a n = repeat f (Z.to_nat n).
+Proof.
+  intros H. unfold zrange. rewrite <- (zr_const f (Z.to_nat n) a). apply zr_ext.
+  intros i Hi. unfold sget.
+  destruct ((lo s <=? i) && (i <? slen s)) eqn:E; [|reflexivity].
+  exfalso. specialize (H i). lia.
+Qed.
+
+Lemma zrange_sget_window (s : spec) (f a n : Z) :
+  0 <= lo s -> lo s <= a -> 0 <= n -> a + n <= slen s ->
+  zrange (sget s f) a n = swindow s a (a + n).
+Proof.
+  intros H0 Ha Hn He. unfold zrange, swindow. replace (a + n - a) with n by lia.
+  rewrite <- zr_nth by (unfold slen in He; lia). apply zr_ext.
+  intros i Hi. unfold sget.
+  destruct ((lo s <=? i) && (i <? slen s)) eqn:E; [reflexivity|lia].
+Qed.
+
+(* arithmetic of the repaired get_range_filled: pads and effective bounds *)
+Lemma filled_arith (l sl a e : Z) : 0 <= l <= sl -> a <= e ->
+  let lpad := Z.min (Z.max (l - a) 0) (e - a) in
+  let elb := Z.min (Z.max l a) sl in
+  let rpad := Z.min (Z.max (e - sl) 0) (e - a) in
+  let eub := Z.min (Z.max l e) sl in
+  0 <= lpad /\ 0 <= rpad /\ l <= elb /\ elb <= eub /\ eub <= sl /\
+  lpad + ((eub - elb) + rpad) = e - a /\
+  (eub - elb = 0 \/ a + lpad = elb) /\
+  (lpad = 0 \/ a + lpad <= l) /\
+  (rpad = 0 \/ sl <= a + lpad + (eub - elb)).
+Proof. intros H1 H2. cbv zeta. lia. Qed.
+
+Example filled_arith_ex : 0 <= 3 <= 6 /\ 0 <= 8. Proof. lia. Qed.
+
+(* zrange of sget = fill ++ window ++ fill *)
+Lemma zrange_sget_split (s : spec) (f a e lpad elb rpad eub : Z) :
+  0 <= lo s <= slen s -> a <= e ->
+  0 <= lpad -> 0 <= rpad -> lo s <= elb -> elb <= eub -> eub <= slen s ->
+  lpad + ((eub - elb) + rpad) = e - a ->
+  (eub - elb = 0 \/ a + lpad = elb) ->
+  (lpad = 0 \/ a + lpad <= lo s) ->
+  (rpad = 0 \/ slen s <= a + lpad + (eub - elb)) ->
+  zrange (sget s f) a (e - a) =
+  repeat f (Z.to_nat lpad) ++ swindow s elb eub ++ repeat f (Z.to_nat rpad).
+Proof.
+  intros Hlo Hae Hl Hr H1 H2 H3 Hsum Hmid Hleft Hright.
+  rewrite <- Hsum. rewrite zrange_app by lia. rewrite zrange_app by lia.
+  f_equal; [|f_equal].
+  - apply zrange_sget_fill. intros i Hi. lia.
+  - destruct Hmid as [Hm|Hm].
+    + rewrite Hm. unfold zrange, swindow. rewrite Hm. reflexivity.
+    + rewrite Hm. rewrite zrange_sget_window by lia. f_equal. lia.
+  - apply zrange_sget_fill. intros i Hi. lia.
+Qed.
+
+(* ------------------------------------------------------------------ *)
+(* 5. simulation relation                                              *)
+(* ------------------------------------------------------------------ *)
+
+Record Rel (b : bstate) (s : spec) : Prop := {
+  R_cap : cap b = scap s;
+  R_cap1 : 1 <= cap b;
+  R_S : S b = zlen (stream s);
+  R_ilb : 0 <= ilb b <= cap b;
+  R_len : zlen (buf b) = cap b;
+  R_lo : S b - cap b + ilb b = lo s;
+  R_lo0 : 0 <= lo s;
+  R_fill : fillv b = sfill s;
+  R_tail : skipn (Z.to_nat (ilb b)) (buf b) = skipn (Z.to_nat (lo s)) (stream s) }.
+
+Lemma Rel_init (c f : Z) : 1 <= c -> Rel (binit c f) (sinit c f).
+Proof.
+  intros Hc. constructor; cbn [binit sinit cap S ilb buf fillv stream lo scap sfill]; try lia; try reflexivity.
+  - apply zlen_repeat. lia.
+  - rewrite zskipn_all by (rewrite zlen_repeat; lia). reflexivity.
+Qed.
+
+Example Rel_ex : Rel (binit 3 (-1)) (sinit 3 (-1)).
+Proof. apply Rel_init. lia. Qed.
+
+Lemma Rel_lo_le (b : bstate) (s : spec) : Rel b s -> lo s <= slen s.
+Proof. intros R. destruct R. unfold slen. lia. Qed.
+
+Lemma Rel_lb (b : bstate) (s : spec) : Rel b s -> samples_lb b = lo s.
+Proof. intros R. destruct R. unfold samples_lb. lia. Qed.
+
+Lemma Rel_ub (b : bstate) (s : spec) : Rel b s -> samples_ub b = slen s.
+Proof. intros R. destruct R. unfold samples_ub, slen. lia. Qed.
+
+(* ------------------------------------------------------------------ *)
+(* 6. reads                                                            *)
+(* ------------------------------------------------------------------ *)
+
+Lemma read_samples (b : bstate) (s : spec) (a e : Z) : Rel b s -> a <= e ->
+  get_range_samples b (Some a) (Some e) = spec_read s a e.
+Proof.
+  intros R Hae. destruct R as [Rcap Rcap1 RS Rilb Rlen Rlo Rlo0 Rfill Rtail].
+  unfold get_range_samples, spec_read, samples_to_index, slen. cbv beta iota zeta.
+  destruct (a - S b + cap b <? ilb b) eqn:E1.
+  { destruct (lo s <=? a) eqn:E2; [lia|]. reflexivity. }
+  destruct (e - S b + cap b >? cap b) eqn:E2.
+  { destruct (lo s <=? a) eqn:E3; destruct (e <=? zlen (stream s)) eqn:E4; try lia; reflexivity. }
+  destruct (lo s <=? a) eqn:E3; [|lia]. destruct (e <=? zlen (stream s)) eqn:E4; [|lia].
+  cbn [andb]. f_equal. rewrite py_slice_mid by lia. unfold swindow.
+  rewrite (skipn_shift (buf b) (stream s) (ilb b) (lo s) (a - S b + cap b)) by (lia || exact Rtail).
+  f_equal; [lia|]. f_equal. lia.
+Qed.
+
+Lemma read_filled (b : bstate) (s : spec) (a e f : Z) : Rel b s -> a <= e ->
+  get_range_filled b a e f = OData (zrange (sget s f) a (e - a)).
+Proof.
+  intros R Hae.
+  pose proof (Rel_lo_le b s R) as Hle. pose proof (R_lo0 b s R) as H0.
+  unfold get_range_filled, get_range_filled_gen. cbv beta iota zeta.
+  rewrite (Rel_lb b s R), (Rel_ub b s R).
+  pose proof (filled_arith (lo s) (slen s) a e (conj H0 Hle) Hae) as HA. cbv zeta in HA.
+  set (lpad := Z.min (Z.max (lo s - a) 0) (e - a)) in *.
+  set (elb := Z.min (Z.max (lo s) a) (slen s)) in *.
+  set (rpad := Z.min (Z.max (e - slen s) 0) (e - a)) in *.
+  set (eub := Z.min (Z.max (lo s) e) (slen s)) in *.
+  destruct HA as (A1 & A2 & A3 & A4 & A5 & A6 & A7 & A8 & A9).
+  rewrite (read_samples b s elb eub R A4). unfold spec_read.
+  destruct (lo s <=? elb) eqn:E1; [|lia]. destruct (eub <=? slen s) eqn:E2; [|lia].
+  cbn [andb].
+  destruct (lpad <? 0) eqn:E3; [lia|]. destruct (rpad <? 0) eqn:E4; [lia|]. cbn [orb].
+  f_equal. symmetry. apply zrange_sget_split; assumption || lia.
+Qed.
+
+(* ------------------------------------------------------------------ *)
+(* 7. state-changing operations preserve the relation                  *)
+(* ------------------------------------------------------------------ *)
+
+Lemma Rel_append (b : bstate) (s : spec) (d : list Z) : Rel b s -> d <> [] ->
+  Rel (append b d) (spec_step s (Append d)).
+Proof.
+  intros R Hd. pose proof (zlen_nonempty d Hd) as Hn.
+  destruct R as [Rcap Rcap1 RS Rilb Rlen Rlo Rlo0 Rfill Rtail].
+  unfold append. cbv zeta. cbn [spec_step].
+  destruct (zlen d >? cap b) eqn:E.
+  - (* more data than capacity: keep the last cap samples *)
+    constructor; cbn [cap S ilb buf fillv stream lo scap sfill]; rewrite ?zlen_app; try lia.
+    + rewrite py_slice_last by lia. rewrite zlen_skipn by lia. lia.
+    + rewrite py_slice_last by lia. rewrite Z.max_r by lia.
+      rewrite zskipn_app_ge by lia. cbn [Z.to_nat]. rewrite skipn_O.
+      f_equal. f_equal. lia.
+  - (* shift left by n, write data at the end *)
+    pose proof (zlen_nonneg (stream s)) as Hs.
+    constructor; cbn [cap S ilb buf fillv stream lo scap sfill]; rewrite ?zlen_app; try lia.
+    + rewrite py_slice_from by lia. rewrite zlen_skipn by lia. lia.
+    + rewrite py_slice_from by lia.
+      rewrite zskipn_app_le by (rewrite zlen_skipn by lia; lia).
+      rewrite zskipn_app_le by lia. f_equal.
+      rewrite zskipn_skipn by lia.
+      rewrite (skipn_shift (buf b) (stream s) (ilb b) (lo s)) by (lia || exact Rtail).
+      f_equal. f_equal. lia.
+Qed.
+
+Lemma Rel_invalidate (b : bstate) (s : spec) (i : Z) : Rel b s -> 0 <= i ->
+  Rel (invalidate_samples b i) (spec_step s (Invalidate i)).
+Proof.
+  intros R Hi. pose proof R as R'.
+  destruct R as [Rcap Rcap1 RS Rilb Rlen Rlo Rlo0 Rfill Rtail].
+  unfold invalidate_samples, invalidate_samples_gen. cbn [spec_step]. unfold slen.
+  destruct (i >=? S b) eqn:E1.
+  { destruct (i >=? zlen (stream s)) eqn:E2; [exact R'|lia]. }
+  destruct (i >=? zlen (stream s)) eqn:E2; [lia|].
+  cbv zeta. unfold invalidate_idx, samples_to_index.
+  destruct (i - S b + cap b <=? ilb b) eqn:E3.
+  - (* nothing survives *)
+    constructor; cbn [cap S ilb buf fillv stream lo scap sfill]; try lia.
+    + rewrite zlen_firstn by lia. lia.
+    + apply zlen_repeat. lia.
+    + rewrite zskipn_all by (rewrite zlen_repeat; lia).
+      rewrite zskipn_all; [reflexivity|]. rewrite zlen_firstn by lia. lia.
+  - (* samples lo .. i survive and move to the end of the ring *)
+    constructor; cbn [cap S ilb buf fillv stream lo scap sfill]; try lia.
+    + rewrite zlen_firstn by lia. lia.
+    + rewrite zlen_app. rewrite zlen_repeat by lia. rewrite py_slice_upto by lia.
+      rewrite zlen_firstn by lia. lia.
+    + rewrite py_slice_upto by lia. rewrite Z.min_l by lia.
+      rewrite zskipn_app_ge by (rewrite zlen_repeat by lia; lia).
+      rewrite zlen_repeat by lia.
+      replace (ilb b + cap b - (i - S b + cap b) - (cap b - (i - S b + cap b))) with (ilb b) by lia.
+      rewrite zskipn_firstn by lia. rewrite zskipn_firstn by lia.
+      rewrite Rtail. f_equal. lia.
+Qed.
+
+Lemma Rel_resize (b : bstate) (s : spec) (m : Z) : Rel b s -> 1 <= m ->
+  Rel (resize b m) (spec_step s (Resize m)).
+Proof.
+  intros R Hm.
+  pose proof (Rel_lo_le b s R) as Hle. unfold slen in Hle.
+  unfold resize, get_latest. rewrite (read_filled b s _ _ _ R) by lia.
+  destruct R as [Rcap Rcap1 RS Rilb Rlen Rlo Rlo0 Rfill Rtail].
+  cbn [spec_step]. unfold slen.
+  replace (0 + S b - (- m + S b)) with m by lia.
+  cbv zeta. rewrite zlen_zrange by lia.
+  constructor; cbn [cap S ilb buf fillv stream lo scap sfill]; try lia.
+  - apply zlen_zrange. lia.
+  - rewrite zskipn_zrange by lia.
+    set (k := Z.max 0 (ilb b + (m - cap b))).
+    set (l' := Z.max (lo s) (zlen (stream s) - m)).
+    assert (Hk : - m + S b + k = l') by (subst k l'; lia).
+    assert (Hl : lo s <= l' <= zlen (stream s)) by (subst l'; lia).
+    rewrite Hk. replace (m - k) with (zlen (stream s) - l') by lia.
+    rewrite zrange_sget_window by (unfold slen; lia).
+    unfold swindow. replace (l' + (zlen (stream s) - l') - l') with (zlen (stream s) - l') by lia.
+    apply zfirstn_all. rewrite zlen_skipn by lia. lia.
+Qed.
+
+(* ------------------------------------------------------------------ *)
+(* 8. one step, then whole histories                                   *)
+(* ------------------------------------------------------------------ *)
+
+Lemma step_sim (b : bstate) (s : spec) (o : op) : Rel b s -> wf_at s o = true ->
+  Rel (fst (step b o)) (spec_step s o) /\ snd (step b o) = spec_out s o.
+Proof.
+  intros R W. unfold wf_at in W. apply andb_true_iff in W. destruct W as [W1 W2].
+  pose proof (Rel_lo_le b s R) as Hle.
+  destruct o as [d|i|m|lb ub|a e f|a e f|]; cbn [step fst snd spec_out wf_op] in *.
+  - split; [|reflexivity]. apply Rel_append; [exact R|]. destruct d; congruence.
+  - split; [|reflexivity]. apply Rel_invalidate; [exact R|lia].
+  - split; [|reflexivity]. apply Rel_resize; [exact R|lia].
+  - split; [exact R|].
+    destruct lb as [a|]; destruct ub as [e|]; unfold get_range_samples at 1;
+      cbv beta iota zeta; rewrite ?(Rel_lb b s R), ?(Rel_ub b s R).
+    + apply (read_samples b s a e R). lia.
+    + apply (read_samples b s a (slen s) R). lia.
+    + apply (read_samples b s (lo s) e R). lia.
+    + apply (read_samples b s (lo s) (slen s) R). lia.
+  - split; [exact R|]. apply read_filled; [exact R|lia].
+  - split; [exact R|]. unfold get_latest. rewrite (R_S b s R). fold (slen s).
+    destruct f as [f|].
+    + rewrite (read_filled b s _ _ _ R) by lia. f_equal. f_equal. lia.
+    + apply read_samples; [exact R|lia].
+  - split; [exact R|]. rewrite (Rel_lb b s R), (Rel_ub b s R). reflexivity.
+Qed.
+
+Example step_sim_ex : Rel (binit 3 (-1)) (sinit 3 (-1)) /\ wf_at (sinit 3 (-1)) (Append [1; 2]) = true.
+Proof. split; [apply Rel_ex|reflexivity]. Qed.
+
+Lemma run_sim : forall (ops : list op) (b : bstate) (s : spec), Rel b s -> wf_hist s ops = true ->
+  Rel (fst (run b ops)) (fst (spec_run s ops)) /\ snd (run b ops) = snd (spec_run s ops).
+Proof.
+  induction ops as [|o t IH]; intros b s R W.
+  - cbn [run spec_run fst snd]. split; [exact R|reflexivity].
+  - cbn [wf_hist] in W. apply andb_true_iff in W. destruct W as [W1 W2].
+    destruct (step_sim b s o R W1) as [R1 O1].
+    specialize (IH (fst (step b o)) (spec_step s o) R1 W2). destruct IH as [R2 O2].
+    cbn [run spec_run].
+    destruct (step b o) as [b1 r] eqn:Es. cbn [fst snd] in *.
+    destruct (run b1 t) as [b2 rs] eqn:Er.
+    destruct (spec_run (spec_step s o) t) as [s2 rs'] eqn:Esr.
+    cbn [fst snd] in *. split; [exact R2|]. rewrite O1, O2. reflexivity.
+Qed.
+
+(* ------------------------------------------------------------------ *)
+(* 9. the lemmas Props/C14.v closes with                               *)
+(* ------------------------------------------------------------------ *)
+
+Lemma refines_spec : forall c fill ops, 1 <= c -> wf_hist (sinit c fill) ops = true ->
+  snd (run (binit c fill) ops) = snd (spec_run (sinit c fill) ops).
+Proof.
+  intros c fill ops Hc W. apply (run_sim ops (binit c fill) (sinit c fill) (Rel_init c fill Hc) W).
+Qed.
+
+Lemma spec_bounds : forall c fill ops s, 1 <= c -> wf_hist (sinit c fill) ops = true ->
+  fst (spec_run (sinit c fill) ops) = s ->
+  0 <= lo s <= slen s /\ slen s - lo s <= scap s /\ 1 <= scap s.
+Proof.
+  intros c fill ops s Hc W E.
+  destruct (run_sim ops (binit c fill) (sinit c fill) (Rel_init c fill Hc) W) as [R _].
+  rewrite E in R. destruct R as [Rcap Rcap1 RS Rilb Rlen Rlo Rlo0 Rfill Rtail]. unfold slen. lia.
+Qed.
+
+Lemma bounds_after_history : forall c fill ops b, 1 <= c -> wf_hist (sinit c fill) ops = true ->
+  fst (run (binit c fill) ops) = b ->
+  0 <= samples_lb b <= samples_ub b /\ samples_ub b - samples_lb b <= cap b /\
+  samples_ub b = slen (fst (spec_run (sinit c fill) ops)) /\
+  samples_lb b = lo (fst (spec_run (sinit c fill) ops)).
+Proof.
+  intros c fill ops b Hc W E.
+  destruct (run_sim ops (binit c fill) (sinit c fill) (Rel_init c fill Hc) W) as [R _].
+  rewrite E in R. destruct R as [Rcap Rcap1 RS Rilb Rlen Rlo Rlo0 Rfill Rtail].
+  unfold samples_lb, samples_ub, slen. lia.
+Qed.
+
+Lemma append_window : forall s d, d <> [] -> 0 <= lo s <= slen s -> 1 <= scap s ->
+  let s' := spec_step s (Append d) in
+  slen s' - lo s' = Z.min (scap s) (slen s - lo s + zlen d) /\ slen s' = slen s + zlen d.
+Proof.
+  intros s d Hd Hlo Hc. cbv zeta. cbn [spec_step]. unfold slen in *.
+  cbn [stream lo scap]. rewrite zlen_app. lia.
+Qed.
+
+Example history_ex : 1 <= 3 /\
+  wf_hist (sinit 3 (-1)) [Append [1;2]; Append [3;4;5;6]; Invalidate 5; Resize 5; Append [7];
+                          ReadS None None; ReadFilled 0 8 9; Latest (-2) 0 None; Bounds] = true.
+Proof. split; [lia|reflexivity]. Qed.
+
+Example append_window_ex : [7] <> [] /\ 0 <= lo (sinit 3 0) <= slen (sinit 3 0) /\ 1 <= scap (sinit 3 0).
+Proof. split; [discriminate|]. cbn. lia. Qed.
+
+(* the code before the two repairs does not refine the specification *)
+Lemma unrepaired_refuted : exists c fill ops, 1 <= c /\ wf_hist (sinit c fill) ops = true /\
+  snd (run_unrepaired (binit c fill) ops) <> snd (spec_run (sinit c fill) ops).
+Proof.
+  exists 10, (-1),
+    [Append [1;2;3;4;5;6;7;8;9;10;11;12;13;14;15;16;17;18;19;20]; Invalidate 15; Invalidate 8; Bounds].
+  split; [lia|]. split; [vm_compute; reflexivity|].
+  vm_compute. intros H. discriminate H.
+Qed.
